@@ -10,13 +10,13 @@ import (
 )
 
 func TestMain(m *testing.M) {
-	core.Main(m, "C11", "cases = server TLS configuration (none, empty config, self-signed certificate with TLS1.2 or TLS1.3 minimum) x client behaviour around the SSLRequest (plain startup; SSLRequest + handshake + startup; SSLRequest with a complete startup+Query stuffed in plaintext in the same write or right after the reply; SSLRequest twice; CancelRequest first / after the SSL reply / inside TLS; garbage instead of a ClientHello) x auth on/off x a session of 0..10 simple/extended messages whose query texts, row values, parameters, error texts and password carry a marker string; oracle = raw wire tap is 'S' + TLS records only, no marker in either raw direction, decrypted transcript and callback trace equal the plaintext run of the same session, stuffed plaintext never reaches a callback, 'N' + unchanged plaintext session without certificates; non-trivial = queries executed over TLS, stuffed plaintext, or a cancel after negotiation; distinct = distinct canonical JSON")
+	core.Main(m, "C11", "client ssl-idle: the session played message by message inside TLS and in plaintext, with a long idle time (every deadline the server armed expires; deadlines are virtual in the in-memory transport) at generated points, transcripts and callbacks equal; cases = server TLS configuration (none, empty config, self-signed certificate with TLS1.2 or TLS1.3 minimum) x client behaviour around the SSLRequest (plain startup; SSLRequest + handshake + startup; SSLRequest with a complete startup+Query stuffed in plaintext in the same write or right after the reply; SSLRequest twice; CancelRequest first / after the SSL reply / inside TLS; garbage instead of a ClientHello) x auth on/off x a session of 0..10 simple/extended messages whose query texts, row values, parameters, error texts and password carry a marker string; oracle = raw wire tap is 'S' + TLS records only, no marker in either raw direction, decrypted transcript and callback trace equal the plaintext run of the same session, stuffed plaintext never reaches a callback, 'N' + unchanged plaintext session without certificates; non-trivial = queries executed over TLS, stuffed plaintext, or a cancel after negotiation; distinct = distinct canonical JSON")
 }
 
 func genCase(t *rapid.T) Case {
 	c := Case{}
 	c.TLS = rapid.SampledFrom([]string{"", "empty", "cert", "cert", "cert13", "cert13"}).Draw(t, "tls")
-	c.Client = rapid.SampledFrom([]string{"plain", "ssl", "ssl", "ssl", "ssl-stuffed-same", "ssl-stuffed-after", "ssl-twice", "ssl-inside-tls", "gss-inside-tls", "cancel-first", "cancel-after-ssl", "cancel-in-tls", "garbage-hello"}).Draw(t, "client")
+	c.Client = rapid.SampledFrom([]string{"plain", "ssl", "ssl", "ssl", "ssl-stuffed-same", "ssl-stuffed-after", "ssl-twice", "ssl-inside-tls", "gss-inside-tls", "cancel-first", "cancel-after-ssl", "cancel-in-tls", "garbage-hello", "ssl-idle", "ssl-idle"}).Draw(t, "client")
 	c.Auth = rapid.Bool().Draw(t, "auth")
 	switch rapid.IntRange(0, 5).Draw(t, "limit-kind") {
 	case 0:
@@ -40,6 +40,14 @@ func genCase(t *rapid.T) Case {
 			c.Msgs = append(c.Msgs, script.CMsg{K: "E", Portal: "nope"}, script.CMsg{K: "S"})
 		default:
 			c.Msgs = append(c.Msgs, script.CMsg{K: "S"})
+		}
+	}
+	if c.Client == "ssl-idle" {
+		c.BigQuery = 0
+		for i := -1; i < len(c.Msgs); i++ {
+			if rapid.IntRange(0, 2).Draw(t, "idle-here") == 0 {
+				c.IdleAt = append(c.IdleAt, i)
+			}
 		}
 	}
 	return c
